@@ -28,8 +28,11 @@ Durations are `Nat`: a negative `PerformLockoutWindow` handed directly to
 The cache GC (`ClearExpired`, every 30 s) is the operation `Op.gc`, modelled as
 one atomic step; Props/C06 shows it is then unobservable (`gc_invisible`).  In
 the code it runs in two phases (`Cache.scanExpired` under the read lock,
-`Cache.deleteKeys` under the write lock); Props/C07 `gc_race_releases_pending_work`
-shows what a `Set` between the two phases does.
+`Cache.deleteKeys` under the write lock, re-checking each key); Props/C06
+`gc_two_phase_refines` shows that writes between the two phases commute with the
+collection, so the atomic step is faithful.  Props/C07
+`gc_race_releases_pending_work_old` is the witness against the collector before
+that fix (`Cache.deleteKeysOld`).
 -/
 namespace AutoVerif.C06
 
@@ -69,10 +72,26 @@ def Cache.scanExpired {α : Type} (c : Cache α) (keys : List String) (now : Nat
     | some (_, exp) => expired exp now
     | none => false
 
-/-- `ClearExpired`, phase 2 (write lock taken after the read lock was released): the
-    collected keys are deleted without looking at the entries again -/
-def Cache.deleteKeys {α : Type} (c : Cache α) (ks : List String) : Cache α :=
+/-- `ClearExpired`, phase 2 (write lock taken after the read lock was released), as in the
+    code since "fix: cache: ClearExpired no longer deletes an entry that was renewed after
+    the scan": a collected key is deleted only if its entry is *still* expired w.r.t. the
+    `now` read before the scan -/
+def Cache.deleteKeys {α : Type} (c : Cache α) (ks : List String) (now : Nat) : Cache α :=
+  fun k => if ks.contains k then
+      (match c k with
+       | some (v, exp) => if expired exp now then none else some (v, exp)
+       | none => none)
+    else c k
+
+/-- phase 2 before that fix: the collected keys were deleted without looking at the entries again -/
+def Cache.deleteKeysOld {α : Type} (c : Cache α) (ks : List String) : Cache α :=
   fun k => if ks.contains k then none else c k
+
+/-- raw map writes `c.data[key] = CacheItem{Item, Expires}` (what `Set` does under the write
+    lock), oldest first — anything `Accept` or the event loop may do between the two phases -/
+def Cache.writes {α : Type} (c : Cache α) : List (String × α × Nat) → Cache α
+  | [] => c
+  | (k, v, exp) :: ws => Cache.writes (fun k' => if k' = k then some (v, exp) else c k') ws
 
 /-! ### coordinator state -/
 
